@@ -389,17 +389,21 @@ class ASTSchemaPrinter:
     def print_schema_definition(self, schema: Schema) -> str:
         directives = self.print_directives(schema)
 
+        def _is_default(root_type: Any, default_name: str) -> bool:
+            # Without a schema definition, build_schema uses the object types
+            # named Query, Mutation and Subscription as root types, so the
+            # definition can only be omitted when that gives the same roots.
+            if root_type is None:
+                return not isinstance(
+                    schema.types.get(default_name), ObjectType
+                )
+            return root_type.name == default_name
+
         if (
             not directives
-            and (not schema.query_type or schema.query_type.name == "Query")
-            and (
-                not schema.mutation_type
-                or schema.mutation_type.name == "Mutation"
-            )
-            and (
-                not schema.subscription_type
-                or schema.subscription_type.name == "Subscription"
-            )
+            and _is_default(schema.query_type, "Query")
+            and _is_default(schema.mutation_type, "Mutation")
+            and _is_default(schema.subscription_type, "Subscription")
         ):
             return ""
 
